@@ -138,8 +138,31 @@ def pack (chn : Nat) (p : Pat) (force : Nat → Nat) (fx : Nat → UInt8 × UInt
 
 def emptyRow (chn : Nat) : List Cell := List.replicate chn {}
 
+/-- one packed entry after its non-zero `what` byte `b`: `(rest of the stream, bytes consumed, row)`;
+`none` when the stream ends inside the entry -/
+def entry (chn : Nat) (b : UInt8) (bs : Bytes) (row : List Cell) : Option (Bytes × Nat × List Cell) :=
+  let c := b.toNat % 32
+  let hasNi := b.toNat / 32 % 2 = 1
+  let hasV := b.toNat / 64 % 2 = 1
+  let hasE := b.toNat / 128 % 2 = 1
+  let need := (if hasNi then 2 else 0) + (if hasV then 1 else 0) + (if hasE then 2 else 0)
+  if bs.length < need then none
+  else
+    let (ni, bs1) := if hasNi then (bs.take 2, bs.drop 2) else ([], bs)
+    let (v, bs2) := if hasV then (bs1.take 1, bs1.drop 1) else ([], bs1)
+    let bs3 := if hasE then bs2.drop 2 else bs2
+    let upd (e : Cell) : Cell :=
+      let e := match ni with
+        | [n, i] => { e with note := decNote n, ins := i.toNat }
+        | _ => e
+      match v with
+        | [x] => { e with vol := (x.toNat + 1) % 256 }
+        | _ => e
+    some (bs3, need, if c < chn then modAt row c upd else row)
+
 /-- body of the `while (pat_len >= 0 && r < rows)` loop until the row ends; the byte stream is
-the rest of the file; returns the row, the remaining stream and `pat_len`. -/
+the rest of the file; returns the row, the remaining stream and `pat_len` (which only counts
+the bytes that follow a `what` byte, exactly as the loader does). -/
 def unpackRow (chn : Nat) : (fuel : Nat) → Bytes → Int → List Cell → Option (List Cell × Bytes × Int)
   | 0, _, _, _ => none
   | f + 1, bs, pl, row =>
@@ -148,26 +171,9 @@ def unpackRow (chn : Nat) : (fuel : Nat) → Bytes → Int → List Cell → Opt
     | [] => none
     | b :: bs =>
       if b = 0 then some (row, bs, pl)
-      else
-        let c := b.toNat % 32
-        let hasNi := b.toNat / 32 % 2 = 1
-        let hasV := b.toNat / 64 % 2 = 1
-        let hasE := b.toNat / 128 % 2 = 1
-        let need := (if hasNi then 2 else 0) + (if hasV then 1 else 0) + (if hasE then 2 else 0)
-        if bs.length < need then none
-        else
-          let (ni, bs1) := if hasNi then (bs.take 2, bs.drop 2) else ([], bs)
-          let (v, bs2) := if hasV then (bs1.take 1, bs1.drop 1) else ([], bs1)
-          let bs3 := if hasE then bs2.drop 2 else bs2
-          let upd (e : Cell) : Cell :=
-            let e := match ni with
-              | [n, i] => { e with note := decNote n, ins := i.toNat }
-              | _ => e
-            match v with
-              | [x] => { e with vol := (x.toNat + 1) % 256 }
-              | _ => e
-          let row := if c < chn then modAt row c upd else row
-          unpackRow chn f bs3 (pl - need) row
+      else match entry chn b bs row with
+        | none => none
+        | some (bs3, need, row') => unpackRow chn f bs3 (pl - need) row'
 
 def unpackRows (chn : Nat) : (rows : Nat) → Bytes → Int → Option (List (List Cell))
   | 0, _, _ => some []
